@@ -6,7 +6,7 @@ package file
 //@ // ---- C14 / C15: every field a stage omits is taken from the default section; a stage that passes validation has
 //@ // every field its mode dereferences.
 //@ func (*Stage).validateCommonFieldsOfStage
-//@   props C14 C15
+//@   props C14 C15 C13
 //@   requires s != nil
 //@   modifies s.Duration, s.Mode
 //@   ensures [usable] result.1 == nil ==> result.0 == s && s.Duration != nil && s.Mode != nil
@@ -15,7 +15,7 @@ package file
 //@   ensures [rejects-only-missing] result.1 != nil <==> ((old(s.Duration) == nil && defaults.Duration == nil) || (old(s.Mode) == nil && defaults.Mode == nil))
 //@
 //@ func (*Stage).validateConstantStage
-//@   props C14 C15
+//@   props C14 C15 C13
 //@   requires s != nil && defaults.Jitter != nil
 //@   modifies s.Rate, s.Distribution, s.Jitter, s.Parameters
 //@   ensures [usable] result.1 == nil ==> result.0 == s && s.Rate != nil && s.Distribution != nil && s.Jitter != nil && s.Parameters != nil
@@ -26,7 +26,7 @@ package file
 //@   ensures [rejected] result.1 != nil ==> result.0 == nil
 //@
 //@ func (*Stage).validateRampStage
-//@   props C14 C15
+//@   props C14 C15 C13
 //@   requires s != nil && defaults.Jitter != nil
 //@   modifies s.StartRate, s.EndRate, s.Distribution, s.Jitter, s.Parameters
 //@   ensures [usable] result.1 == nil ==> result.0 == s && s.StartRate != nil && s.EndRate != nil && s.Distribution != nil && s.Jitter != nil && s.Parameters != nil
@@ -38,7 +38,7 @@ package file
 //@   ensures [rejected] result.1 != nil ==> result.0 == nil
 //@
 //@ func (*Stage).validateStagedStage
-//@   props C14 C15
+//@   props C14 C15 C13
 //@   requires s != nil && defaults.Jitter != nil
 //@   modifies s.Stages, s.IterationFrequency, s.Distribution, s.Jitter, s.Parameters
 //@   ensures [usable] result.1 == nil ==> result.0 == s && s.Stages != nil && s.IterationFrequency != nil && s.Distribution != nil && s.Jitter != nil && s.Parameters != nil
@@ -51,7 +51,7 @@ package file
 //@   ensures [rejected] result.1 != nil ==> result.0 == nil
 //@
 //@ func (*Stage).validateGaussianStage
-//@   props C14 C15
+//@   props C14 C15 C13
 //@   requires s != nil && defaults.Jitter != nil
 //@   modifies s.Volume, s.Repeat, s.IterationFrequency, s.Peak, s.Weights, s.StandardDeviation, s.Distribution, s.Jitter, s.Parameters
 //@   ensures [usable] result.1 == nil ==> result.0 == s && s.Volume != nil && s.Repeat != nil && s.IterationFrequency != nil && s.Peak != nil && s.Weights != nil &&
@@ -183,6 +183,31 @@ package file
 //@   assert before call unsetEnvs : [trigger-finished-first] closed(stageDone)
 //@   ensures [none-remain] forall k string :: indom(stage.Params, k) ==> !envset[k]
 //@   onpanic [none-remain-on-panic] forall k string :: indom(stage.Params, k) ==> !envset[k]
+//@
+//@ // C15 (limits mapped one-to-one onto the run options; total duration = sum of all stage durations): the builder's
+//@ // New closure hands the parsed plan on unchanged.
+//@ ghost var G15plan *RunnableStages
+//@ func readFile
+//@   props C15 C14
+//@   trusted file I/O plumbing (os.Open, io.ReadAll, Close): returns the content or an error, touches no modelled state
+//@   requires output != nil
+//@   modifies nothing
+//@   ensures [content-or-error] (result.1 == nil ==> result.0 != nil) && (result.1 != nil ==> result.0 == nil)
+//@
+//@ func newDryRun
+//@   props C15 C14
+//@   modifies nothing
+//@   ensures result != nil
+//@
+//@ func Rate$1
+//@   props C15 C14
+//@   requires flags != nil && output != nil && GJclaim == 0 && G12claim == 0
+//@   ghost after call ParseConfigFile : G15plan = ret0
+//@   ensures [limits-one-to-one] result.1 == nil ==> result.0 != nil && result.0.Options.Scenario == G15plan.Scenario && result.0.Options.MaxDuration == G15plan.MaxDuration &&
+//@           result.0.Options.Concurrency == G15plan.Concurrency && result.0.Options.MaxIterations == G15plan.MaxIterations && result.0.Options.MaxFailures == G15plan.maxFailures &&
+//@           result.0.Options.MaxFailuresRate == G15plan.maxFailuresRate && result.0.Options.IgnoreDropped == G15plan.IgnoreDropped
+//@   ensures [total-duration] result.1 == nil ==> result.0.Duration == G15plan.stagesTotalDuration && result.0.Trigger != nil && result.0.DryRun != nil
+//@   ensures [rejected] result.1 != nil ==> result.0 == nil
 //@
 //@ ghost var G15ran int
 //@ func newStagesWorker$1
